@@ -18,7 +18,7 @@ func (hdrOnlyProcessor) Process(in, out *frugal.FProtocol) error {
 	_, err := in.ReadRequestHeader()
 	return err
 }
-func (hdrOnlyProcessor) AddMiddleware(frugal.ServiceMiddleware)          {}
+func (hdrOnlyProcessor) AddMiddleware(frugal.ServiceMiddleware)    {}
 func (hdrOnlyProcessor) Annotations() map[string]map[string]string { return nil }
 
 var binFactory = frugal.NewFProtocolFactory(thrift.NewTBinaryProtocolFactoryConf(nil))
@@ -172,4 +172,10 @@ func replayRecvLine(op string, args []string) (string, bool) {
 		return realNSW(parseMsgs(args[0]))
 	}
 	return "bad-op", true
+}
+
+func init() {
+	suites["c05recv"] = runC05Recv
+	lineOps["pfr"] = func(args []string) (string, bool) { return replayRecvLine("pfr", args) }
+	lineOps["nsw"] = func(args []string) (string, bool) { return replayRecvLine("nsw", args) }
 }
